@@ -156,11 +156,19 @@ fn check_case(cfg: &Cfg, tree: &Entry, fs_restore: Option<&Path>) -> Result<(), 
     }
     // (d) restore to an empty directory
     if let Some(dir) = fs_restore {
+        // ownership handling off, and - where the source has set-id/sticky bits, which a chown
+        // clears - also on (by name and numeric; the harness runs as root, owners are root)
+        let special = model.values().any(|n| n.kind != "symlink" && n.mode.is_some_and(|m| m & 0o7000 != 0));
+        let mut optsv = vec![RestoreOptions::default().no_ownership(true)];
+        if special {
+            optsv.push(RestoreOptions::default());
+            optsv.push(RestoreOptions::default().numeric_id(true));
+        }
+      for opts in optsv {
         _ = fs::remove_dir_all(dir);
         let node = full.node_from_snapshot_and_path(&snap, "").map_err(|e| es("root-node", e))?;
         let ls = full.ls(&node, &LsOptions::default().recursive(true)).map_err(|e| es("ls", e))?;
         let dest = LocalDestination::new(dir.to_str().unwrap(), true, false).map_err(|e| es("destination", e))?;
-        let opts = RestoreOptions::default().no_ownership(true);
         let plan = full.prepare_restore(&opts, ls.clone(), &dest, false).map_err(|e| es("prepare-restore", e))?;
         full.restore(plan, &opts, ls, &dest).map_err(|e| es("restore", e))?;
         let fsr = snapshot(dir);
@@ -206,6 +214,7 @@ fn check_case(cfg: &Cfg, tree: &Entry, fs_restore: Option<&Path>) -> Result<(), 
                 return Err(("C01/restore/extra".into(), format!("{} was created but is not in the source", String::from_utf8_lossy(p))));
             }
         }
+      }
     }
     Ok(())
 }
@@ -386,9 +395,11 @@ fn misc_trees() -> Vec<(String, Entry, bool)> {
     v.push(("100-files".to_string(), t, true));
     // modes and mtimes
     let mut t = Entry::dir(T0);
-    for (i, mode) in [0u32, 0o644, 0o755, 0o4755, 0o1777, 0o600, 0o7777].iter().enumerate() {
+    for (i, mode) in [0u32, 0o644, 0o755, 0o4755, 0o2755, 0o6711, 0o1777, 0o600, 0o7777].iter().enumerate() {
         let mut e = Entry::file(lcg(i as u64, 40), T0 + 11);
         e.meta.mode = Some(*mode);
+        e.meta.uid = Some(0);
+        e.meta.gid = Some(0);
         t.insert(&format!("mode{mode:o}"), e);
     }
     for (i, mt) in [0i128, 1, 1_600_000_000_123_456_789, 7_258_118_400_000_000_000, -1_000_000_000].iter().enumerate() {
@@ -407,7 +418,7 @@ pub fn run(args: &Args, rep: &mut Report) {
     std::panic::set_hook(Box::new(|_| {}));
     let thorough = !args.quick();
     let sb = sandbox(&format!("c01-{}", args.shard));
-    rep.set_meta("rule", json!("S1: every tree with <= n nodes over {dir,file,symlink} and names a,b,c; S2: one file per legal single-byte name (253) + pairs over a hostile set + long/unicode/escape-like names; S3: configuration grid {v1,v2} x compression x 7 chunkers x 3 pack sizes, each with a tree of files whose lengths sit on the chunker's min/avg/max boundaries x fills {zero, 0xff, period 3, LCG} and a file equal to a sibling tree; S4: symlink targets (relative, absolute, dangling, non-UTF-8, long), hardlink pair and triple, nesting depth 1..40, 100 files in one directory, modes incl. setuid/sticky, mtimes incl. 0, 1 ns, year 2200, negative. Every case: ls + dump through the API, independent decoder, read_file_at over a boundary grid, check --read-data, and (where the file system can hold the names) restore into an empty tmpfs directory compared by lstat. Non-trivial = distinct cases"));
+    rep.set_meta("rule", json!("S1: every tree with <= n nodes over {dir,file,symlink} and names a,b,c; S2: one file per legal single-byte name (253) + pairs over a hostile set + long/unicode/escape-like names; S3: configuration grid {v1,v2} x compression x 7 chunkers x 3 pack sizes, each with a tree of files whose lengths sit on the chunker's min/avg/max boundaries x fills {zero, 0xff, period 3, LCG} and a file equal to a sibling tree; S4: symlink targets (relative, absolute, dangling, non-UTF-8, long), hardlink pair and triple, nesting depth 1..40, 100 files in one directory, modes incl. setuid/sticky, mtimes incl. 0, 1 ns, year 2200, negative. Every case: ls + dump through the API, independent decoder, read_file_at over a boundary grid, check --read-data, and (where the file system can hold the names) restore into an empty tmpfs directory compared by lstat (ownership handling off; for trees with set-id/sticky bits also on, by name and numeric). Non-trivial = distinct cases"));
     if let Some(p) = &args.replay {
         let v: Value = serde_json::from_str(&fs::read_to_string(p).unwrap()).unwrap();
         let c = &v["case"];
